@@ -689,6 +689,7 @@ class Executor(object):
 
     def execute(self):
         try:
+            subprocess_timeout.setup_signal_handling()
             self._scheduler.execute()
             if self._print_execution_plan:
                 return True
